@@ -30,7 +30,7 @@ def report (ext nc : Bool) (pt : Str) (ss : List Str) : Str :=
     let re := toRe q
     let sq := specParse ext pt
     let unmod := q.backslashAlnum || q.setOp || q.caretFirst
-    let impl : Str := if unmod then ['U'] else ss.map fun s => bit (lineSearch nc re true s)
+    let impl : Str := if unmod then ['U'] else ss.map fun s => bit (anchoredSearch nc re true s)
     let full : Str := if unmod then ['U'] else ss.map fun s => bit (re.full nc s)
     let spec : Str := match sq with
       | none => ['-']
